@@ -63,6 +63,7 @@ type Tree struct {
 	Opts   Opts
 	Blocks []*BlockInfo
 	ByID   map[string]int
+	RootTx *pb.Transaction // the genesis coinbase
 	nonce  int
 	ts     int64
 }
@@ -125,6 +126,11 @@ func NewTree(o Opts) (*Tree, error) {
 		return nil, err
 	}
 	t := &Tree{Opts: o, ByID: map[string]int{}, ts: 1000}
+	rb, err := n.Ledger.QueryBlock(n.Root())
+	if err != nil || len(rb.Transactions) != 1 {
+		return nil, fmt.Errorf("cannot read genesis block: %v", err)
+	}
+	t.RootTx = sn.CloneTx(rb.Transactions[0])
 	g := &BlockInfo{Idx: 0, Parent: -1, Height: 0, ID: n.Root(), Canon: n.World}
 	t.Blocks = append(t.Blocks, g)
 	t.ByID[string(g.ID)] = 0
